@@ -12,7 +12,7 @@ import pickle
 
 from ..core import Violation, stream, sut, exc_name, InjectedFault
 from ..values import (CUR, ModelTraitError, raw, mval, make_validator,
-                      RaisingIter)
+                      RaisingIter, Spell)
 
 ID = "C07"
 
@@ -37,6 +37,84 @@ def check_event(before, after, removed, added):
                              % ((before - removed) | added, after))
 
 
+def gen_set_op(r, item, copy_on=False, ops=OPS):
+    """One set-mutator op; returns (op, #validations if nothing fails).
+    ``item(validating)`` yields a value spec."""
+    def items(validating, lo=0, hi=4):
+        return [item(validating) for _ in range(r.randint(lo, hi))]
+    k = r.choice(ops)
+    if k == "copy" and not copy_on:
+        k = "add"
+    op = {"k": k}
+    nval = 0
+    if k == "add":
+        op["v"] = item(True)
+        nval = 1
+    elif k in ("discard", "remove"):
+        op["v"] = item(False)
+    elif k == "update":
+        op["args"] = [items(True, 0, 3) for _ in range(r.choice([0, 1, 1, 1, 2, 3]))]
+        nval = sum(len(a) for a in op["args"])
+        if op["args"] and r.random() < 0.1:
+            op["iter_raise_arg"] = r.randrange(len(op["args"]))
+            op["iter_raise_at"] = r.randint(0, len(op["args"][op["iter_raise_arg"]]))
+            op["iter_exc"] = r.choice(["ValueError", "RuntimeError", "KeyError"])
+    elif k in ("ior", "ixor", "symmetric_difference_update"):
+        op["vs"] = items(True)
+        nval = len(op["vs"])
+    elif k in ("iand", "isub"):
+        op["vs"] = items(False)
+    elif k in ("difference_update", "intersection_update"):
+        op["args"] = [items(False, 0, 4) for _ in range(r.choice([0, 1, 1, 2]))]
+    elif k == "op_nonset":
+        op["which"] = r.choice(["ior", "iand", "isub", "ixor"])
+        op["vs"] = items(False)
+    elif k == "copy":
+        op["how"] = r.choice(["copy", "deepcopy", "pickle"])
+        op["proto"] = r.choice([2, 3, 4, 5])
+    return op, nval
+
+
+def sut_set_apply(ts, op):
+    """Apply a set op (not 'copy') to the system under test."""
+    k = op["k"]
+
+    def mk_arg(specs, ai=None):
+        vals = [raw(s) for s in specs]
+        if ai is not None and op.get("iter_raise_arg") == ai:
+            return RaisingIter(vals, op["iter_raise_at"], op["iter_exc"])
+        return vals
+    if k == "add":
+        return sut(ts.add, raw(op["v"]))
+    if k == "discard":
+        return sut(ts.discard, raw(op["v"]))
+    if k == "remove":
+        return sut(ts.remove, raw(op["v"]))
+    if k == "pop":
+        return sut(ts.pop)
+    if k == "clear":
+        return sut(ts.clear)
+    if k == "update":
+        return sut(ts.update, *[mk_arg(a, ai) for ai, a in enumerate(op["args"])])
+    if k == "ior":
+        return sut(operator.ior, ts, set(mk_arg(op["vs"])))
+    if k == "iand":
+        return sut(operator.iand, ts, set(mk_arg(op["vs"])))
+    if k == "isub":
+        return sut(operator.isub, ts, frozenset(mk_arg(op["vs"])))
+    if k == "ixor":
+        return sut(operator.ixor, ts, set(mk_arg(op["vs"])))
+    if k == "symmetric_difference_update":
+        return sut(ts.symmetric_difference_update, mk_arg(op["vs"]))
+    if k == "difference_update":
+        return sut(ts.difference_update, *[mk_arg(a) for a in op["args"]])
+    if k == "intersection_update":
+        return sut(ts.intersection_update, *[mk_arg(a) for a in op["args"]])
+    if k == "op_nonset":
+        return sut(getattr(operator, op["which"]), ts, mk_arg(op["vs"]))
+    raise AssertionError(k)
+
+
 class Prop:
     ID = ID
     LEVEL = "exploration"
@@ -50,7 +128,7 @@ class Prop:
             "non-trivial = at least one content change whose event passed the delta law; "
             "distinct = distinct abstract traces (op kind, overlap pattern, outcome class, "
             "fault fired, event shape per op)")
-    ASSUMPTIONS = ["items are small ints (overlap) or fresh coercible digit strings; a coercible "
+    ASSUMPTIONS = ["items are small ints (overlap) or fresh coercible spellings (objects with a hash-seed independent hash); a coercible "
                    "spelling never collides with a current member (fresh numbers), so validating "
                    "only the items that will be added and validating all items coincide",
                    "pop() may remove any member: the model follows the system's choice"]
@@ -77,7 +155,7 @@ class Prop:
             if validating and x < invalid_rate:
                 return {"t": "bad"}
             if validating and vk != "none" and x < invalid_rate + 0.15:
-                return {"t": "str", "v": str(fresh())}
+                return {"t": "spell", "v": fresh()}
             if x > 0.85:
                 return {"t": "int", "v": fresh()}
             return {"t": "int", "v": r.choice(space)}
@@ -87,36 +165,8 @@ class Prop:
         init = [{"t": "int", "v": v} for v in space if c.random() < 0.5]
         ops = []
         for _ in range(nops):
-            k = r.choice(OPS)
-            if k == "copy" and not copy_on:
-                k = "add"
-            op = {"k": k}
-            nval = 0
-            if k == "add":
-                op["v"] = item(True)
-                nval = 1
-            elif k in ("discard", "remove"):
-                op["v"] = item(False)
-            elif k == "update":
-                op["args"] = [items(True, 0, 3) for _ in range(r.choice([0, 1, 1, 1, 2, 3]))]
-                nval = sum(len(a) for a in op["args"])
-                if op["args"] and r.random() < 0.1:
-                    op["iter_raise_arg"] = r.randrange(len(op["args"]))
-                    op["iter_raise_at"] = r.randint(0, len(op["args"][op["iter_raise_arg"]]))
-                    op["iter_exc"] = r.choice(["ValueError", "RuntimeError", "KeyError"])
-            elif k in ("ior", "ixor", "symmetric_difference_update"):
-                op["vs"] = items(True)
-                nval = len(op["vs"])
-            elif k in ("iand", "isub"):
-                op["vs"] = items(False)
-            elif k in ("difference_update", "intersection_update"):
-                op["args"] = [items(False, 0, 4) for _ in range(r.choice([0, 1, 1, 2]))]
-            elif k == "op_nonset":
-                op["which"] = r.choice(["ior", "iand", "isub", "ixor"])
-                op["vs"] = items(False)
-            elif k == "copy":
-                op["how"] = r.choice(["copy", "deepcopy", "pickle"])
-                op["proto"] = r.choice([2, 3, 4, 5])
+            op, nval = gen_set_op(r, item, copy_on)
+            k = op["k"]
             if vk == "point" and nval and er.random() < fault_rate:
                 op["env"] = [{"at": "validator", "nth": er.randint(1, nval), "do": "raise",
                               "exc": er.choice(["TraitError", "ValueError",
@@ -269,7 +319,7 @@ class Prop:
                         raise Violation("C07.copy-validates",
                                         "%s of a validating TraitSet accepted an invalid item "
                                         "(raised %r, holds %r)" % (how, e, set(c)), i)
-                    _, e = sut(c.update, ["7000"])
+                    _, e = sut(c.update, [Spell(7000)])
                     if e is not None or 7000 not in c:
                         raise Violation("C07.copy-validates",
                                         "%s of a coercing TraitSet did not coerce (raised %r, "
@@ -288,46 +338,12 @@ class Prop:
             else:
                 val_exc, set_exc = self.model_apply(m, op, vk)
 
-            def mk_arg(specs, ai=None):
-                vals = [raw(s) for s in specs]
-                if ai is not None and op.get("iter_raise_arg") == ai:
-                    return RaisingIter(vals, op["iter_raise_at"], op["iter_exc"])
-                return vals
-            if k == "add":
-                ret, e = sut(ts.add, raw(op["v"]))
-            elif k == "discard":
-                ret, e = sut(ts.discard, raw(op["v"]))
-            elif k == "remove":
-                ret, e = sut(ts.remove, raw(op["v"]))
-            elif k == "pop":
-                ret, e = sut(ts.pop)
-                if e is None:
-                    if ret not in m:
-                        raise Violation("C07.return", "pop returned %r, not a member of %r"
-                                        % (ret, m), i)
-                    m.discard(ret)
-            elif k == "clear":
-                ret, e = sut(ts.clear)
-            elif k == "update":
-                ret, e = sut(ts.update, *[mk_arg(a, ai) for ai, a in enumerate(op["args"])])
-            elif k == "ior":
-                ret, e = sut(operator.ior, ts, set(mk_arg(op["vs"])))
-            elif k == "iand":
-                ret, e = sut(operator.iand, ts, set(mk_arg(op["vs"])))
-            elif k == "isub":
-                ret, e = sut(operator.isub, ts, frozenset(mk_arg(op["vs"])))
-            elif k == "ixor":
-                ret, e = sut(operator.ixor, ts, set(mk_arg(op["vs"])))
-            elif k == "symmetric_difference_update":
-                ret, e = sut(ts.symmetric_difference_update, mk_arg(op["vs"]))
-            elif k == "difference_update":
-                ret, e = sut(ts.difference_update, *[mk_arg(a) for a in op["args"]])
-            elif k == "intersection_update":
-                ret, e = sut(ts.intersection_update, *[mk_arg(a) for a in op["args"]])
-            elif k == "op_nonset":
-                ret, e = sut(getattr(operator, op["which"]), ts, mk_arg(op["vs"]))
-            else:
-                raise AssertionError(k)
+            ret, e = sut_set_apply(ts, op)
+            if k == "pop" and e is None:
+                if ret not in m:
+                    raise Violation("C07.return", "pop returned %r, not a member of %r"
+                                    % (ret, m), i)
+                m.discard(ret)
             env.end_op()
             injected = env.fired["raise"] > fired0
             if injected:
@@ -416,7 +432,7 @@ class Prop:
         for s in specs:
             if s["t"] == "bad":
                 bad = 1
-            elif s["t"] == "str":
+            elif s["t"] in ("str", "spell"):
                 coerc = 1
             elif s["v"] in before:
                 hit = 1
